@@ -168,6 +168,7 @@ class Workspace:
             body += [f'rm -f "$GROG_WORKSPACE_ROOT/../ext/{t}"']
         elif t in self.h["checkt"] and c != "noest":
             body += ['mkdir -p "$GROG_WORKSPACE_ROOT/../ext"', f'echo ok > "$GROG_WORKSPACE_ROOT/../ext/{t}"']
+        body.append(f": command version {c}")     # every command version is a different command text (also for targets without outputs)
         if c == "omit":
             if out:
                 body.append(f'rm -rf "{out}"')
